@@ -233,6 +233,47 @@ def body(chk):
             if o != base and not (o[0] == base[0] == "exc"):
                 chk.report(f"{route}:route", f"{route} differs from stacking on the same focal elements and masses" + (f": {o[2]}" if o[0] == "exc" else ""),
                            {"kind": "route", "intervals": ivs, "masses": masses, "route": route})
+    # one object holding the focal elements used for several conversions in a row (equal masses first, then unequal masses, then the DS
+    # structure twice): every answer is decided against the focal elements as they were GIVEN
+    from pyuncertainnumber import pba as _pba
+    from pyuncertainnumber.pba.aggregation import stacking as _stacking
+    from pyuncertainnumber.pba.intervals.number import Interval as _I
+
+    def _out(f):
+        try:
+            r = f()
+            return ("ok", [float(v) for v in r.left], [float(v) for v in r.right])
+        except Exception as e:
+            return ("exc", pbx.exc_code(e), type(e).__name__ + ": " + str(e)[:80])
+    for i in range(8 if chk.tier == "quick" else 80):
+        ivs, masses, tag = gen_structure(rng, ["nested", "overlapping"][i % 2], chk.tier)
+        if masses is None:
+            mm = [rng.randint(1, 8) for _ in ivs]
+            masses = [x / sum(mm) for x in mm]
+        holder = ["vec-interval", "ndarray", "dss"][i % 3]
+        if holder == "vec-interval":
+            obj = _I([float(a) for a, _ in ivs], [float(b) for _, b in ivs])
+            seq = [("stacking(obj)", None, lambda: _stacking(obj)), ("stacking(obj, weights)", masses, lambda: _stacking(obj, weights=masses)),
+                   ("DempsterShafer(obj, masses).to_pbox()", masses, lambda: _pba.DempsterShafer(obj, masses).to_pbox()),
+                   ("stacking(obj) again", None, lambda: _stacking(obj))]
+        elif holder == "ndarray":
+            obj = np.array([[float(a), float(b)] for a, b in ivs])
+            seq = [("stacking(arr)", None, lambda: _stacking(obj)), ("stacking(arr, weights)", masses, lambda: _stacking(obj, weights=masses)),
+                   ("DempsterShafer(arr, masses).to_pbox()", masses, lambda: _pba.DempsterShafer(obj, masses).to_pbox())]
+        else:
+            obj = _pba.DempsterShafer(intervals=[list(v) for v in ivs], masses=masses)
+            seq = [("ds.to_pbox()", masses, lambda: obj.to_pbox()), ("stacking(ds.focal_elements)", None, lambda: _stacking(obj.focal_elements)),
+                   ("ds.to_pbox() again", masses, lambda: obj.to_pbox())]
+        for step, (text, w, f) in enumerate(seq):
+            o = _out(f)
+            chk.count(f"reuse-{holder}", key=("reuse", holder, i, step))
+            rep = {"kind": "oracle", "intervals": ivs, "masses": w, "holder": holder, "sequence": [t for t, _, _ in seq[:step + 1]]}
+            if tie_crossing(o, tag):
+                continue
+            why = oracle(ivs, w, o)
+            if why:
+                chk.report(f"reuse:{holder}", f"step {step + 1} of a sequence of conversions of ONE object ({text}): {why}", rep)
+                break
     from pyuncertainnumber.pba.aggregation import stochastic_mixture
     chk.count("witness-O26", key="O26")
     try:
